@@ -116,6 +116,30 @@ fn main() {
             std::fs::write(&tmp, line).unwrap();
             std::fs::rename(&tmp, &out).unwrap();
         }
+        "listener2" => {
+            // listener2 ADDRESS1 OUT ADDRESS2 FDS2 PIDKIND PRE SUF NAMES2: a second listener after the
+            // environment has been changed (`-` = unset, `=value` = set)
+            let out = args[3].clone();
+            let first = world::listener_report(&args[2]);
+            let set = |k: &str, v: &str| {
+                if let Some(val) = v.strip_prefix('=') {
+                    std::env::set_var(k, val);
+                } else {
+                    std::env::remove_var(k);
+                }
+            };
+            set("LISTEN_FDS", &args[5]);
+            match args[6].as_str() {
+                "self" => std::env::set_var("LISTEN_PID", format!("{}{}{}", args[7], std::process::id(), args[8])),
+                "lit" => std::env::set_var("LISTEN_PID", &args[7]),
+                _ => std::env::remove_var("LISTEN_PID"),
+            }
+            set("LISTEN_FDNAMES", &args[9]);
+            let second = world::listener_report(&args[4]);
+            let tmp = format!("{}.tmp", out);
+            std::fs::write(&tmp, format!("{}\n{}\n", first, second)).unwrap();
+            std::fs::rename(&tmp, &out).unwrap();
+        }
         "actclient" => {
             let spec = args[2].clone();
             let dump = args[3].clone();
